@@ -327,7 +327,7 @@ def _with_constraint(gname: str, ctext: str) -> Any:
 
 
 def run_shard(ctx: Any) -> None:
-    n = 60 if ctx.tier == "quick" else 2500
+    n = 30 if ctx.tier == "quick" else 2500
 
     @given(cases())
     def test(case: dict[str, Any]) -> None:
